@@ -1,0 +1,16 @@
+//go:build verif
+
+// Add-only hook for the /verif check of property C15: exposes the
+// float64-specialised forward-backward recursion (hmm_optimized.go), which is
+// otherwise only reachable from inside Baum-Welch.
+package generic
+
+import . "github.com/pbenner/autodiff"
+
+func (obj *Hmm) VerifC15Float64ForwardBackward(data HmmDataRecord) (*DenseFloat64Matrix, *DenseFloat64Matrix, error) {
+  n := data.GetN()
+  m := obj.M
+  alpha := NullDenseFloat64Matrix(m, n)
+  beta  := NullDenseFloat64Matrix(m, n)
+  return obj.float64ForwardBackward(data, alpha, beta)
+}
